@@ -356,7 +356,7 @@ func fileReadAux(L *LState, file *lFile, idx int) int {
 			L.Push(LString(string(buf)))
 		case LString:
 			options := L.CheckString(i)
-			if len(options) > 0 && options[0] != '*' {
+			if len(options) == 0 || options[0] != '*' {
 				L.ArgError(2, "invalid options:"+options)
 			}
 			for _, opt := range options[1:] {
